@@ -111,23 +111,39 @@ Theorem C03_commit_verifies_refuted : ~ C03_commit_verifies_full.
 Proof. exact commit_verifies_refuted. Qed.
 Print Assumptions C03_commit_verifies_refuted.
 
-(* 5. credentials.  The theorems above speak of the credential check the voter
-   calls (verifySortitionFn).  With Server.verifySortition in that place and
-   without the repair fixes/C03_stale_credential_accepted.diff (fix_stale E =
-   false) the check also accepts an invalid VRF credential when the message is
-   older than the server's own (round, index); it is sound for fresh messages,
-   and for all messages with the repair. *)
+(* 5. credentials.  The weight recorded for a vote is the seat count the message
+   claims; the voter accepts the message only if its credential check
+   (verifySortitionFn) does.  [cred_weight E m] is the weight the sortition
+   verifier computes from the credential itself (key, round, index, step, proof) -
+   an output of the verifier, not an input of the message.  With
+   Server.verifySortition in that place and without the repair
+   fixes/C03_stale_credential_accepted.diff (fix_stale E = false) the check also
+   accepts an unverifiable credential when the message is older than the
+   server's own (round, index); it is sound for fresh messages, and for all
+   messages with the repair: the accepted claim is then exactly the verified weight. *)
 Definition C03_credentials_full : Prop := credentials_full false.
 
 Theorem C03_credentials_refuted : ~ C03_credentials_full.
 Proof. exact credentials_refuted. Qed.
 Print Assumptions C03_credentials_refuted.
 
-Theorem C03_credentials_hold_outside : forall E v m b,
-  m_cred m = CredVrf b -> cred_ok E v m = true ->
-  fst (v_srv v) <= m_round m -> snd (v_srv v) <= m_idx m -> b = true.
+Theorem C03_credentials_hold_outside : forall E v m,
+  cred_ok E v m = true ->
+  fst (v_srv v) <= m_round m -> snd (v_srv v) <= m_idx m ->
+  cred_weight E m = Some (m_votes m) /\ 0 < m_votes m.
 Proof. exact fresh_credential_sound. Qed.
 Print Assumptions C03_credentials_hold_outside.
+
+(* with the repair (or any verifier without the stale rule) every weight counted
+   for a delivered vote - hence every weight in a quorum of C03_quorum_meaning -
+   is the weight the verifier computes for that vote's credential *)
+Theorem C03_counted_weight_is_verified_weight : forall E H r i t k h a n,
+  fix_stale E = true \/ srv_rule E = false ->
+  counted_by_msg E H r i t k h a n ->
+  exists m, In (Msg m) H /\ m_sender m = a /\ m_round m = r /\ m_idx m = i /\ m_type m = t /\ m_hash m = h /\
+            cred_weight E m = Some (m_votes m) /\ 0 < m_votes m /\ n = w32 (m_votes m).
+Proof. exact counted_weight_verified. Qed.
+Print Assumptions C03_counted_weight_is_verified_weight.
 
 Theorem C03_credentials_with_repair : credentials_full true.
 Proof. exact credentials_repaired. Qed.
@@ -187,12 +203,13 @@ Print Assumptions C03_voter_persist_before_post.
    (7,1): the prevote is refused by the replayed database; at (7,2) it votes again *)
 Example C03_nonvacuous_restart :
   let E := mkEnv 0 [(7, 1, V.Prevote, (1, 4, Chamber)); (7, 1, V.Precommit, (1, 4, Chamber));
-                    (7, 2, V.Prevote, (1, 4, Chamber))] true false true true in
+                    (7, 2, V.Prevote, (1, 4, Chamber))] true false true true false
+                   [(1, 7, 1, V.Prevote, 1); (2, 7, 1, V.Prevote, 2)] in
   sends (all_events E init_voter
            [Cache 1 true; Ctx 7 1 2 false (Some (1, 1));
-            Msg (mkMsg Same V.Prevote 7 1 1 1 1 true 1 false (Some (4, Chamber)) (CredGiven true));
+            Msg (mkMsg Same V.Prevote 7 1 1 1 1 true 1 false (Some (4, Chamber)) 1);
             Restart; Ctx 7 1 2 false (Some (1, 2));
-            Msg (mkMsg Same V.Prevote 7 1 2 1 1 true 2 false (Some (4, Chamber)) (CredGiven true));
+            Msg (mkMsg Same V.Prevote 7 1 2 1 2 true 2 false (Some (4, Chamber)) 1);
             Ctx 7 2 2 false (Some (1, 2))])
   = [(V.Prevote, V.enc 7 1); (V.Precommit, V.enc 7 1); (V.Prevote, V.enc 7 2)].
 Proof. vm_compute. reflexivity. Qed.
@@ -202,9 +219,10 @@ Print Assumptions C03_nonvacuous_restart.
 (* a history in which prevotes reach the quorum exactly (2 of threshold 4), the
    voter precommits, precommits reach the quorum and the block is committed *)
 Definition nv_env : env :=
-  mkEnv 0 [(7, 1, V.Prevote, (1, 4, Chamber)); (7, 1, V.Precommit, (1, 4, Chamber))] true false false false.
+  mkEnv 0 [(7, 1, V.Prevote, (1, 4, Chamber)); (7, 1, V.Precommit, (1, 4, Chamber))] true false false false false
+        [(1, 7, 1, V.Prevote, 1); (2, 7, 1, V.Prevote, 1); (2, 7, 1, V.Precommit, 1)].
 Definition nv_msg (t : vtype) (h a n : N) : op :=
-  Msg (mkMsg Same t 7 1 h 1 a true n false (Some (4, Chamber)) (CredGiven true)).
+  Msg (mkMsg Same t 7 1 h 1 a true n false (Some (4, Chamber)) 1).
 Definition nv_hist : list op :=
   [Cache 1 true; Ctx 7 1 2 false (Some (1, 1)); nv_msg V.Prevote 1 1 1].
 
@@ -238,23 +256,37 @@ Print Assumptions C03_nonvacuous_equivocator.
    (5, 1); one prevote with an invalid VRF credential and 100 claimed seats makes
    the voter precommit *)
 Example C03_stale_credential_witness :
-  let E := mkEnv 0 [(5, 1, V.Precommit, (1, 4, Chamber))] true false false false in
+  let E := mkEnv 0 [(5, 1, V.Precommit, (1, 4, Chamber))] true false false false true [] in
   snd (fst (step E (run_state E [Cache 1 true; Srv 5 2; Ctx 5 1 2 false None])
-                 (Msg (mkMsg Same V.Prevote 5 1 1 1 1 true 100 false (Some (4, Chamber)) (CredVrf false)))))
+                 (Msg (mkMsg Same V.Prevote 5 1 1 1 1 true 100 false (Some (4, Chamber)) 2))))
   = [ESend V.Precommit 5 1 1 1 1].
 Proof. vm_compute. reflexivity. Qed.
 Print Assumptions C03_stale_credential_witness.
 
 (* with the two repairs the two witnesses no longer escalate *)
 Example C03_repaired_witnesses :
-  let E1 := mkEnv 0 [] true false true false in
-  let E2 := mkEnv 0 [(5, 1, V.Precommit, (1, 4, Chamber))] true false false true in
+  let E1 := mkEnv 0 [] true false true false false (creds w_env) in
+  let E2 := mkEnv 0 [(5, 1, V.Precommit, (1, 4, Chamber))] true false false true true [] in
   snd (fst (step E1 (run_state E1 w_hist) w_last)) = []
   /\ step E2 (run_state E2 [Cache 1 true; Srv 5 2; Ctx 5 1 2 false None])
-           (Msg (mkMsg Same V.Prevote 5 1 1 1 1 true 100 false (Some (4, Chamber)) (CredVrf false)))
+           (Msg (mkMsg Same V.Prevote 5 1 1 1 1 true 100 false (Some (4, Chamber)) 2))
       = (run_state E2 [Cache 1 true; Srv 5 2; Ctx 5 1 2 false None], [], ret_ok).
 Proof. split; vm_compute; reflexivity. Qed.
 Print Assumptions C03_repaired_witnesses.
+
+(* a vote that arrives early (future status: verified, not counted) and is
+   re-sent with the same proof and an inflated seat claim is rejected; re-sent
+   unchanged it is counted with the verified weight *)
+Example C03_inflated_resend_rejected :
+  let E := mkEnv 0 [(7, 1, V.Precommit, (1, 4, Chamber))] true false true true false [(1, 7, 1, V.Prevote, 1)] in
+  let early := Msg (mkMsg Future V.Prevote 7 1 1 1 1 true 1 false (Some (4, Chamber)) 1) in
+  let pre := [Cache 1 true; Ctx 7 1 2 false None; early] in
+  step E (run_state E pre) (Msg (mkMsg Same V.Prevote 7 1 1 1 1 true 100 false (Some (4, Chamber)) 1))
+    = (run_state E pre, [], ret_bad)
+  /\ count_for (fst (fst (step E (run_state E pre) (Msg (mkMsg Same V.Prevote 7 1 1 1 1 true 1 false (Some (4, Chamber)) 1)))))
+               (Msg (mkMsg Same V.Prevote 7 1 1 1 1 true 1 false (Some (4, Chamber)) 1)) = 1.
+Proof. split; vm_compute; reflexivity. Qed.
+Print Assumptions C03_inflated_resend_rejected.
 
 (* the quorum function at the boundary values used in the protocol tables *)
 Example C03_quorum_values :
